@@ -12,6 +12,8 @@ NA = {
  "C16": "decision lives in methods of ContentPackCreator which cannot be constructed without spawning threads; detect branch is floating point; dedup adder is HashMap<blake3::Hash,_> (DESIGN.md section 5)",
 }
 TEXT = {
+ "C02": ("Bounded model checking of the real per-column machinery on both sides: column width selection (PropertySize/ValueCounter/needed_bytes) under a truncation monitor on the real entry serialiser with every value symbolic; the sequence of primitive writes of the real serialize_entry and layout::Property::serialize compared with the pinned layout for all widths at once (ghost log); the real reader builders (IntProperty, SignedProperty, ContentProperty, ArrayProperty, VariantIdProperty, AnyProperty) and RawProperty::parse against an independent little-endian reference decode on symbolic entry bytes; real value stores (creator tail/data layout from a constructed finalized state, reader parse + get_data from reference bytes); index window arithmetic; variant padding; tail size representability. The solver decides every value inside each stated bound, which is where width boundaries, sign handling and nibble packing go wrong.",
+         "4 C02", "Kani/CBMC; per-column and per-property kernels: whole-schema assembly (Schema::finalize, Layout::parse, ValueTransformer: HashMap) and the rayon sorts are outside and enter as stated invariants; primitive writes are abstracted by a ghost log (their byte-level behaviour is C14's obligation); Serializer::close without CRC and accepting CRC oracle (C05 covers CRC); from_utf8 accepted for concrete ASCII names"),
  "C01": ("Bounded model checking of the real cluster bookkeeping and cluster tail code on both sides: one inductive step of ClusterCreator from any valid state (blob counts 0,1,2,4094,4095), ContentInfo 20/12 packing, a truncation monitor over the real serialize_cluster_tail with every offset and the stored size symbolic, writer bytes == an independent reference encoding and reader(reference encoding) == fields for each width, and blob extraction from a cluster placed at a non-zero position with symbolic data and offsets. All values inside each bound are decided by the solver; the rare inputs (width boundaries, codec expansion, 4095th blob) are exactly what it finds.",
          "4 C01", "Kani/CBMC; kernel harnesses glued by stated assumptions: codecs are inverse pairs returning any stored size, worker threads deliver bytes unaltered, needed_bytes replaced by a constant width under an exact range assumption (needed_bytes itself proved in C14), CRC oracle accepts (C05 covers CRC); compression FFI, threads, file sources, LruCache path outside"),
  "C13": ("Bounded model checking of the real view types (ByteRegion, ByteSlice, ByteStream, Reader, Region) over a 9-byte memory source with every offset, size and read length symbolic: CBMC decides all values inside the bound (nested cuts to depth 3, three reads, all parser widths). This is the right level because the property is pure offset arithmetic over all (offset,size) combinations, which a solver covers exhaustively inside the bound and tests only sample.",
